@@ -148,9 +148,14 @@ type Options struct {
 	Solver        string // "z3" (default), "z3-new", "cvc5"
 	NLSolver      string // default "cvc5-int"
 	StrictCap     bool   // flag reslicing beyond len (within cap)
-	InitPkgs      []string
-	MaxSeconds    int
-	Twin          bool // reachability twin: every vx.Assert becomes assert(false)
+	// NonTermViolation: exceeding the unwinding bound is reported as a
+	// finding (for harnesses whose inputs bound every legitimate loop well
+	// below it); MaxSteps lowers the per-path instruction budget.
+	NonTermViolation bool
+	MaxSteps         int
+	InitPkgs         []string
+	MaxSeconds       int
+	Twin             bool // reachability twin: every vx.Assert becomes assert(false)
 	// StopOnFinding ends the exploration at the first finding.
 	StopOnFinding bool
 	// Params are harness parameters (vx.Param).
@@ -904,6 +909,13 @@ func (e *Explorer) runPath(m *Machine, fn *ssa.Function) {
 				e.Stats.Infeasible++
 			case abUnwind:
 				e.Stats.UnwindHits++
+				if e.Opt.NonTermViolation {
+					res, ins := m.model()
+					if res == smt.Sat {
+						e.addFinding(&Finding{Harness: e.Harness, Kind: "blocked", Name: "does not terminate within the loop bound", Site: r.msg, Inputs: ins, Trace: m.traceTail()})
+						break
+					}
+				}
 				e.Stats.Inconclusive = append(e.Stats.Inconclusive, "unwinding assertion failed: "+r.msg)
 			case abUnsupported:
 				e.Stats.Unsupported++
